@@ -1,6 +1,7 @@
 import Dcg.Proofs.Modules
 import Dcg.Proofs.ModulesNorm
 import Dcg.Props.C02
+import Dcg.Proofs.CrossRef
 /-
 C12 — in multi-module output every cross-module reference resolves inside the package.
 Only property theorems live here; helper lemmas are in Dcg/Proofs/Modules.lean.
@@ -509,5 +510,187 @@ theorem line_lost_when_filed_once_per_class :
   decide
 
 end CollapseLedger
+
+section CrossRef
+open Dcg.Model.CrossRef Dcg.Proofs.CrossRef
+
+/-! ### how a use of a foreign class is written (`__change_from_import`) and what it reaches (Model/CrossRef) -/
+
+/-- "The import line it appends binds exactly the name the use is spelled with": for EVERY module (any path,
+package file or not, both settings of `--use-exact-imports`), any member names, classes and sequence of
+foreign references, every use the pass writes — `Class`, `Alias` or `alias.Class` — starts with the name
+`Import.alias` of the import appended for it (whatever name the scoped resolver handed out). -/
+theorem import_binds_spelled_name (vn : List Char → List Char) (exact : Bool) (cur : MPath) (init : Bool)
+    (excl : List (List Char)) (classes : List (List Char × List Char)) (uses : List Use) (ws : List Written)
+    (h : changeFromImport vn exact cur init excl classes uses = some ws) :
+    ∀ w ∈ ws, w.imp.name ≠ [] → w.head = w.alias := by
+  intro w hw hn
+  obtain ⟨u, _, r, a, _, rfl⟩ := mem_changeFromImport h w hw
+  rw [(mkWritten_fixed u r a).2.1] at hn
+  rw [mkWritten_head u r a hn, (mkWritten_fixed u r a).2.2]
+
+/-- FULL STRENGTH (FALSE of the code, kept visible): every use written by the pass whose import designates
+the defining module reaches the class. -/
+def WrittenUseResolves : Prop :=
+  ∀ (T : Table) (pyInit : Bool) (vn : List Char → List Char) (exact : Bool) (cur : MPath) (init : Bool)
+    (excl : List (List Char)) (classes : List (List Char × List Char)) (uses : List Use) (ws : List Written),
+    changeFromImport vn exact cur init excl classes uses = some ws →
+    ∀ w ∈ ws, designated cur pyInit w.imp = some w.use.ref → w.use.cls ∈ classesOf T w.use.ref →
+      isModule T w.use.ref = true → w.imp.name ≠ [] →
+      resolveUse T cur pyInit w = some (.cls w.use.ref w.use.cls)
+
+/-- PARTIAL (decidable side condition `moduleFormOk`): for every table of modules and classes, every module
+and every sequence of foreign references, each use the pass writes — in EITHER spelling: the class imported
+under its own name or an alias (`from .. import Class [as Alias]`, the exact form included), or the module
+imported and the class reached as `alias.Class` — resolves, by Python's rules (relative import from the
+importer's file, attribute before sub-module, attribute of the bound module), to the class `cls` of the
+defining module `ref`, provided the import designates that module (`hdes`: that is
+`relative_resolves_package_file`, `relative_resolves_plain_partial`, `exact_resolves_*_partial`,
+`imports_resolve_in_file_map`), the module defines the class, and — for the module form only — the alias is
+not the class name, the module is not named like the class, and the package the module is imported from
+has no class named like the module. Without the side condition the statement is false:
+`module_named_like_class_unresolved`. -/
+theorem written_use_resolves_partial (T : Table) (pyInit : Bool) (vn : List Char → List Char) (exact : Bool)
+    (cur : MPath) (init : Bool) (excl : List (List Char)) (classes : List (List Char × List Char))
+    (uses : List Use) (ws : List Written)
+    (h : changeFromImport vn exact cur init excl classes uses = some ws) :
+    ∀ w ∈ ws, designated cur pyInit w.imp = some w.use.ref → w.use.cls ∈ classesOf T w.use.ref →
+      isModule T w.use.ref = true → w.imp.name ≠ [] → moduleFormOk T w = true →
+      resolveUse T cur pyInit w = some (.cls w.use.ref w.use.cls) := by
+  intro w hw hdes hcls hmod hn hok
+  obtain ⟨u, _, r, a, hem, rfl⟩ := mem_changeFromImport h w hw
+  obtain ⟨h1, h2, h3⟩ := mkWritten_fixed u r a
+  unfold moduleFormOk at hok
+  rw [h1, h2] at hdes
+  rw [h1] at hcls hmod
+  rw [h2] at hn
+  rw [h1, h2, h3] at hok
+  unfold resolveUse resolveSpelled
+  rw [h1, h2, h3, mkWritten_head u r a hn]
+  simp only [ne_eq, not_true_eq_false, if_false]
+  unfold designated at hdes
+  cases hm : r.isModule with
+  | false =>
+    have hname := emitted_class_form hem hm
+    rw [hm] at hdes
+    simp only [Bool.false_eq_true, if_false] at hdes
+    rw [mkWritten_attr_class u r a hname]
+    unfold importTarget
+    rw [hdes]
+    simp only [hname, hcls, if_true]
+  | true =>
+    rw [hm] at hdes hok
+    simp only [if_true] at hdes
+    simp only [Bool.not_true, Bool.false_or, Bool.and_eq_true, decide_eq_true_eq, Bool.not_eq_true',
+      ne_eq] at hok
+    obtain ⟨⟨⟨ha, hc⟩, _⟩, hnc⟩ := hok
+    obtain ⟨p, hp, href⟩ := resolveFrom_snoc hdes
+    rw [mkWritten_attr_module u r a hn ha hc]
+    unfold importTarget
+    rw [hp]
+    have hd : u.ref.dropLast = p := by rw [href, List.dropLast_concat]
+    rw [hd] at hnc
+    have hnc' : r.name ∉ classesOf T p := by
+      intro hin
+      rw [List.contains_eq_mem, decide_eq_false_iff_not] at hnc
+      exact hnc hin
+    simp only [hnc', if_false, ← href, hmod, if_true, hcls]
+
+/-- non-vacuity, on the shape of a real package: module `b` (plain file) uses `a.K` as a member (module form,
+`from . import a`, `a.K`), the root class `Z` (class form, `from . import Z`) and `c.K` under a member named `c`
+(module form under an alias, `from . import c as c_1`, `c_1.K`); every hypothesis holds of every use -/
+example :
+    let T : Table := [⟨[], [n "Z"]⟩, ⟨[n "a"], [n "K"]⟩, ⟨[n "b"], [n "User"]⟩, ⟨[n "c"], [n "K"]⟩]
+    let uses : List Use := [⟨[n "a"], n "K", false⟩, ⟨[], n "Z", false⟩, ⟨[n "c"], n "K", false⟩]
+    ∃ ws, changeFromImport id false [n "b"] false [n "c"] [(n "#/definitions/b.User", n "User")] uses = some ws ∧
+      ws.map (fun w => (w.alias, w.render (fun _ c => c))) = [(n "a", n "a.K"), (n "Z", n "Z"), (n "c_1", n "c_1.K")] ∧
+      ∀ w ∈ ws, designated [n "b"] false w.imp = some w.use.ref ∧ w.use.cls ∈ classesOf T w.use.ref ∧
+        isModule T w.use.ref = true ∧ w.imp.name ≠ [] ∧ moduleFormOk T w = true := by
+  refine ⟨_, rfl, ?_⟩
+  decide
+
+/-- REFUTATION of the full statement (defect found by this check, finding C12-module-named-like-class;
+replayed on the real generator): definition `Pet.Pet` used from module `b`. `relative` answers `from . import Pet`,
+the resolver hands out the name `Pet`, which IS the class name, so `data_type.alias` is not set and the member is
+annotated `Pet` — the MODULE `Pet`, not its class. (The same test `short_name == import_` writes the bare alias
+`Pet_1` when the name `Pet` is taken.) -/
+theorem module_named_like_class_unresolved :
+    let T : Table := [⟨[], [n "Model"]⟩, ⟨[n "Pet"], [n "Pet"]⟩, ⟨[n "b"], [n "User"]⟩]
+    let w : Written := ⟨⟨[n "Pet"], n "Pet", false⟩, ⟨1, [], n "Pet", true⟩, n "Pet", n "Pet", none, none⟩
+    changeFromImport id false [n "b"] false [n "pet"] [(n "#/definitions/b.User", n "User")]
+      [⟨[n "Pet"], n "Pet", false⟩] = some [w] ∧
+    designated [n "b"] false w.imp = some [n "Pet"] ∧ n "Pet" ∈ classesOf T [n "Pet"] ∧ isModule T [n "Pet"] = true ∧
+    resolveUse T [n "b"] false w = some (.module [n "Pet"]) ∧ moduleFormOk T w = false := by decide
+
+theorem written_use_resolves_false : ¬ WrittenUseResolves := by
+  intro hall
+  have hw := module_named_like_class_unresolved
+  simp only at hw
+  obtain ⟨h1, h2, h3, h4, h5, _⟩ := hw
+  have := hall _ false id false [n "b"] false [n "pet"] [(n "#/definitions/b.User", n "User")] _ _ h1 _
+    (List.mem_singleton.mpr rfl) h2 h3 h4 (by decide)
+  rw [h5] at this
+  cases this
+
+/-! ### `__change_imported_model_name`: renaming a class that collides with an imported name -/
+
+/-- A use whose `data_type.alias` was not set follows every later renaming: its text is the class name the
+referenced model has when the module is rendered. Uses of classes of the module itself are of this kind
+(`__change_from_import` skips them), so inside the module a renamed class is renamed at every use. -/
+theorem unaliased_use_follows_rename (w : Written) (now : MPath → Name → Name) (h : w.dtAlias = none) :
+    w.render now = now w.use.ref w.use.cls ∧ w.spelledNow now = (now w.use.ref w.use.cls, none) := by
+  unfold Written.render Written.spelledNow
+  rw [h]
+  exact ⟨rfl, rfl⟩
+
+/-- The pass renames ONLY classes whose class name is among the imported names: every other model keeps its
+`reference.name` (same position, same name), so `written_use_resolves_partial` goes on holding of every use of
+such a class over the table after the pass. -/
+theorem rename_pass_keeps_unimported (cn : List Char → List Char) (imported : List (List Char)) (s : Scope)
+    (classes : List (List Char × List Char)) (out : List (List Char))
+    (h : renamePass cn imported s classes = some out) :
+    out.length = classes.length ∧
+    ∀ i (hi : i < classes.length) (ho : i < out.length),
+      imported.contains (classNameOf (classes[i]).2) = false → out[i] = (classes[i]).2 :=
+  renamePass_keeps classes s out h
+
+/-- the table after a renaming: every class `c` of module `m` is now called `now m c` -/
+def renameTable (now : MPath → Name → Name) (T : Table) : Table :=
+  T.map (fun e => { e with classes := e.classes.map (now e.path) })
+
+/-- FULL STRENGTH (FALSE of the code, kept visible): a use that reached its class before the pass reaches it,
+under the name the class has now, after the pass. -/
+def RenameKeepsForeignUses : Prop :=
+  ∀ (T : Table) (cur : MPath) (pyInit : Bool) (w : Written) (now : MPath → Name → Name),
+    resolveUse T cur pyInit w = some (.cls w.use.ref w.use.cls) →
+    resolveAfter (renameTable now T) cur pyInit w now = some (.cls w.use.ref (now w.use.ref w.use.cls))
+
+/-- REFUTATION (defect found by this check, finding C12-renamed-after-use; replayed on the real generator):
+module `a` has the class `Literal` and a discriminated union, for which `from typing import Literal` is added
+to its import block after `__change_from_import` ran. Module `b` was processed with `a.Literal` stored as the
+text of its use. `__change_imported_model_name` then renames the class to `Literal1` (`renamePass`), inside `a`
+every use follows, and `b` still says `a.Literal`: no class of that name is left in module `a`. -/
+theorem rename_breaks_frozen_use :
+    let w : Written := ⟨⟨[n "a"], n "Literal", false⟩, ⟨1, [], n "a", true⟩, n "a", n "a", some (n "Literal"), some (n "a.Literal")⟩
+    let now : MPath → Name → Name := fun m c => if m = [n "a"] ∧ c = n "Literal" then n "Literal1" else c
+    let T : Table := [⟨[n "a"], [n "Literal", n "Cat"]⟩, ⟨[n "b"], [n "User"]⟩]
+    let T' : Table := renameTable now T
+    changeFromImport id false [n "b"] false [] [(n "#/definitions/b.User", n "User")] [⟨[n "a"], n "Literal", false⟩] = some [w] ∧
+    resolveUse T [n "b"] false w = some (.cls [n "a"] (n "Literal")) ∧
+    renamePass id [n "Literal", n "BaseModel"] ⟨[⟨n "k1", n "Literal", n "Literal"⟩, ⟨n "k2", n "Cat", n "Cat"⟩], []⟩
+      [(n "k1/imported_name", n "a.Literal"), (n "k2/imported_name", n "a.Cat")] = some [n "a.Literal1", n "a.Cat"] ∧
+    w.render now = n "a.Literal" ∧ classesOf T' [n "a"] = [n "Literal1", n "Cat"] ∧
+    resolveAfter T' [n "b"] false w now = none := by decide
+
+theorem rename_keeps_foreign_uses_false : ¬ RenameKeepsForeignUses := by
+  intro hall
+  have hw := rename_breaks_frozen_use
+  simp only at hw
+  obtain ⟨_, h2, _, _, _, h5⟩ := hw
+  have := hall _ _ _ _ (fun m c => if m = [n "a"] ∧ c = n "Literal" then n "Literal1" else c) h2
+  rw [h5] at this
+  cases this
+
+end CrossRef
 
 end Dcg.Props.C12
